@@ -199,7 +199,25 @@ def wide_double(rng, emax):
     return v if rng.random() < 0.5 else -v
 
 
+def edge_doubles():
+    """the doubles next to a power of two and next to small integers, either sign: where `x + 1`, `x + 0.5`, `x - 0.5` are themselves rounded"""
+    out = []
+    for k in range(0, 54):
+        p2 = math.ldexp(1.0, k)
+        out += [math.nextafter(p2, 0.0), math.nextafter(p2, math.inf), p2]
+    for n in range(1, 12):
+        out += [math.nextafter(float(n), 0.0), math.nextafter(float(n), math.inf), math.nextafter(n + 0.5, 0.0), math.nextafter(n + 0.5, math.inf)]
+    out += [math.nextafter(0.5, 0.0), math.nextafter(0.5, 1.0), math.nextafter(0.0, 1.0), 2.0 ** -30]
+    return out + [-v for v in out]
+
+
 def generate(rng, tier):
+    # every edge double once (as x, paired with another edge double as y): 2 * ~220 values
+    ed = edge_doubles()
+    for k, v in enumerate(ed):
+        c = rounding(['pt', 'vec', 'size'][k % 3], v, ed[(7 * k + 3) % len(ed)])
+        c.stratum = 'rounding-binade-edges'
+        yield c
     allr = list(itertools.product(G, repeat=4))
     for r in allr:
         yield rect_un(list(r), 'grid-all')
